@@ -8,10 +8,20 @@ sys.path.insert(0, os.path.join(V, 'engine'))
 os.environ['VERIF_NO_INLINE'] = '1'
 import facts, core
 names = set()
+params = {}
 for cfg in ('FULL', 'AWSLC'):
     crates, info = facts.load(cfg)
     prog = core.Program(crates)
     names |= {p for p in prog.fns if '{closure' not in p}
+    for p, f in prog.fns.items():
+        # parameter names of non-pub functions with at least two parameters (engine/core.py: parameter-order normalisation)
+        if '{closure' in p or f.meta.get('vis') == 'pub' or f.argc < 2:
+            continue
+        nm = [f.varname.get(i) for i in range(1, f.argc + 1)]
+        if None not in nm and len(set(nm)) == len(nm):
+            params[p] = nm
+json.dump(params, open(os.path.join(V, 'rules', 'known_params.json'), 'w'), indent=0, sort_keys=True)
+print(len(params), 'private functions with named parameters')
 names = sorted(names)
 json.dump(names, open(os.path.join(V, 'rules', 'known_fns.json'), 'w'), indent=0)
 print(len(names), 'function paths')
